@@ -39,6 +39,16 @@ def check(ctx):
     ctx.rule("R1", "outputs of either direction pass a two-sided clamp to the respective box", floor=2)
     clamp_summary(ctx, prog, R.direct, "self.lb", "self.ub", "direct transform")
     clamp_summary(ctx, prog, R.inverse, "self.orig_lb", "self.orig_ub", "inverse transform")
+    # no in-place write through a local alias of the stored bounds (they are the clamp limits)
+    from .c20 import alias_violations
+
+    for m in T.methods.values():
+        seeds = {f"self.{a_}": frozenset({f"A:self.{a_}"}) for a_ in ("orig_lb", "orig_ub", "orig_plb", "orig_pub")}
+        viol, _fl = alias_violations(prog, m, seeds)
+        for node, al, what, tgt in viol:
+            if tgt.startswith("self.orig_"):
+                continue
+            ctx.fail(m, node, f"{what} on '{tgt}', which may alias the stored original bounds {al}: the clamp limits / round-trip reference of the transform are modified", construct=f"in-place {what} on alias of {al[0][2:]}")
     # the direction functions apply g / ginv first
     for fn, attr in ((R.direct, "g"), (R.inverse, "ginv")):
         calls = [n for n in ast.walk(fn.node) if isinstance(n, ast.Call) and canon(n.func) == f"self.{attr}"]
@@ -267,6 +277,6 @@ def _rest(ctx, prog, R, T, create):
 
     # ------------------------------------------------------------------ R4
     ctx.rule("R4", "integer-typed bounds are cast to float before the in-place log stores", floor=4)
-    _dtype_rule(ctx, prog, R)
+    _dtype_rule(ctx, prog, R, include_validator=False)
     ctx.assume("exp and log are mutually inverse on positive reals; min(FMAX, .) is the identity below overflow")
     ctx.assume("maskindex(v, m) keeps v on the coordinates selected by m and zeroes the others")
